@@ -48,7 +48,7 @@ let code_of = function
   | "VALID" -> 15 | "VIEW" -> 16 | "PKTNEW" -> 17 | "ONEW" -> 18 | "ORAW" -> 19 | "OSET" -> 20 | "ODATA" -> 21
   | "OSHOW" -> 22 | "OPKT" -> 23 | "OFRAME" -> 24 | "XCOPY" -> 25 | "XMOVE" -> 26 | "XASG" -> 27 | "XMASG" -> 28
   | "XEQ" -> 29 | "XSHOW" -> 30 | "XMUT" -> 31 | "YCOPY" -> 32 | "YASG" -> 33 | "YEQ" -> 34 | "YMUT" -> 35
-  | "TEQ" -> 36 | "SUPD" -> 37 | "SRMDEV" -> 38 | "SRMIF" -> 39 | "SCLR" -> 40 | "SSHOW" -> 41 | "ENCQ" -> 42 | "XTYPE" -> 43 | "DCOPY" -> 44 | "XETH" -> 45 | "DNULL" -> 46 | "ENCX" -> 47 | "SINIT" -> 48 | "SCOPY" -> 49 | "SOTHER" -> 50 | "ODATASELF" -> 51 | "OSHORT" -> 52 | "SUPDSELF" -> 53 | "ENCL" -> 8 | "ENCD" -> 8 | "ENCR" -> 8 | "SLEEP" -> 54 | "XRAWHDR" -> 55
+  | "TEQ" -> 36 | "SUPD" -> 37 | "SRMDEV" -> 38 | "SRMIF" -> 39 | "SCLR" -> 40 | "SSHOW" -> 41 | "ENCQ" -> 42 | "XTYPE" -> 43 | "DCOPY" -> 44 | "XETH" -> 45 | "DNULL" -> 46 | "ENCX" -> 47 | "SINIT" -> 48 | "SCOPY" -> 49 | "SOTHER" -> 50 | "ODATASELF" -> 51 | "OSHORT" -> 52 | "SUPDSELF" -> 53 | "ENCL" -> 8 | "ENCD" -> 8 | "ENCR" -> 8 | "SLEEP" -> 54 | "XRAWHDR" -> 55 | "XFLAGS" -> 56
   | _ -> 0
 let tag_of = function
   | 1 -> "F" | 2 -> "Q" | 3 -> "N" | 4 -> "K" | 5 -> "V" | 6 -> "W" | 7 -> "R" | 8 -> "B" | 9 -> "G" | 10 -> "S"
